@@ -3,6 +3,7 @@ import Skc.Lemmas.PenH
 import Skc.Lemmas.CapaGlue
 import Skc.Lemmas.Tables
 import Skc.Lemmas.CapaOn
+import Skc.Lemmas.GaussCovIneq
 import Mathlib.Tactic.IntervalCases
 
 /-! # C03 — CAPA / MVCAPA anomalies maximise the total penalised saving
@@ -296,13 +297,13 @@ theorem capa_prefix_wrt_specification (pick : (Nat → α) → List Nat → Nat)
     the variance floor). -/
 theorem capa_optimal_wrt_specification_on (pick : (Nat → α) → List Nat → Nat) (pr : α → α → Bool)
     (hpick : SoundPickMax pick) (hpr : SoundPruneC pr) (eps : α) (csav : Nat → Nat → List α) (psav : Nat → List α)
-    (ca pa : α) (cb pb : List α) (p m M delay n : Nat)
-    (hm : 2 ≤ m) (hmM : m ≤ M) (hd : m ≤ delay + 1) (hp : 0 < p)
-    (hclen : ∀ s e, AdmC m M s e → e ≤ n → (csav s e).length = p) (hplen : ∀ t, t < n → (psav t).length = p)
+    (ca pa : α) (cb pb : List α) (pc pp m M delay n : Nat)
+    (hm : 2 ≤ m) (hmM : m ≤ M) (hd : m ≤ delay + 1) (hpc : 0 < pc) (hpp : 0 < pp)
+    (hclen : ∀ s e, AdmC m M s e → e ≤ n → (csav s e).length = pc) (hplen : ∀ t, t < n → (psav t).length = pp)
     (hcnn : ∀ s e, AdmC m M s e → e ≤ n → ∀ v ∈ csav s e, 0 ≤ v) (hpnn : ∀ t, t < n → ∀ v ∈ psav t, 0 ≤ v)
     (hsub : ∀ s e0 T, s + m ≤ e0 → e0 + m ≤ T → T ≤ s + M → T ≤ n →
       SubAdd (csav s T) (csav s e0) (csav e0 T))
-    (okc : PenOK eps p ca cb) (okp : PenOK eps p pa pb)
+    (okc : PenOK eps pc ca cb) (okp : PenOK eps pp pa pb)
     (PSs : Nat → Nat → α) (PPs : Nat → α)
     (hPSs : ∀ s e, AdmC m M s e → e ≤ n → IsBestSel (csav s e) ca cb (PSs s e))
     (hPPs : ∀ t, t < n → IsBestSel (psav t) pa pb (PPs t)) :
@@ -416,12 +417,54 @@ theorem capa_gauss_optimal_wrt_specification (pick : (Nat → ℝ) → List Nat 
     ValidAnoms m M 0 r.2 n ∧ anomVal PSs PPs r.2 = r.1 n ∧
       ∀ l, ValidAnoms m M 0 l n → anomVal PSs PPs l ≤ r.1 n :=
   capa_optimal_wrt_specification_on pick pr hpick hpr eps (fun s e => gaussSavings X μ v p s e)
-    (fun t => l2Savings X p t (t + 1)) ca pa cb pb p m M delay n hm hmM hd hp
+    (fun t => l2Savings X p t (t + 1)) ca pa cb pb p p m M delay n hm hmM hd hp hp
     (fun s e _ _ => gaussSavings_length X μ v p s e) (fun t _ => l2Savings_length X p t (t + 1))
     (fun s e hadm hen => gaussSavings_nonneg X μ v p s e (by obtain ⟨h1, _⟩ := hadm; omega) hv
       (fun j hj => habove j hj s e hadm.1 hen))
     (fun t _ => l2Savings_nonneg X p t (t + 1))
     (fun s e0 T h1 h2 _ h4 => gaussSavings_subAdd X μ v p m n s e0 T (by omega) h1 h2 h4 habove)
+    okc okp PSs PPs hPSs hPPs
+
+/-- **C03, multivariate Gaussian saving, from the rows.**  CAPA with the multivariate saving
+    `Saving(GaussianCovCost(param=(μ, Σ)))` — one component per interval: fixed-parameter cost minus
+    optimal cost, both defined from the rows (`gcovFixed`, `gcovCost`; `np.cov` / `slogdet` / `inv` in the
+    code, tied numerically by C01 / C06) — for collective anomalies and the per-column squared-error saving
+    for points.  If `Σ` is positive definite and every interval of at least `m` rows inside `[0, n]` has
+    a positive definite sample covariance (otherwise the code raises its documented error), the
+    hypotheses about the savings are theorems: non-negativity is `gcovCost_le_gcovFixed` (the log-det
+    inequality), sub-additivity under splitting follows from `gcovFixed_add` and `gcovCost_split_le`. -/
+theorem capa_gcov_optimal_wrt_specification {p : ℕ} (pick : (Nat → ℝ) → List Nat → Nat) (pr : ℝ → ℝ → Bool)
+    (hpick : SoundPickMax pick) (hpr : SoundPruneC pr) (eps : ℝ) (x : ℕ → Fin p → ℝ) (X : ℕ → ℕ → ℝ)
+    (μ : Fin p → ℝ) (Sg : Matrix (Fin p) (Fin p) ℝ)
+    (ca pa : ℝ) (cb pb : List ℝ) (m M delay n : Nat)
+    (hm : 2 ≤ m) (hmM : m ≤ M) (hd : m ≤ delay + 1) (hp : 0 < p)
+    (hSg : Sg.PosDef) (hpd : ∀ a b, a + m ≤ b → b ≤ n → (covMat x a b).PosDef)
+    (okc : PenOK eps 1 ca cb) (okp : PenOK eps p pa pb)
+    (PSs : Nat → Nat → ℝ) (PPs : Nat → ℝ)
+    (hPSs : ∀ s e, AdmC m M s e → e ≤ n →
+      IsBestSel [gcovFixed x μ Sg s e - gcovCost x s e] ca cb (PSs s e))
+    (hPPs : ∀ t, t < n → IsBestSel (l2Savings X p t (t + 1)) pa pb (PPs t)) :
+    let PS := fun s e => penalise eps [gcovFixed x μ Sg s e - gcovCost x s e] ca cb
+    let PP := fun t => penalise eps (l2Savings X p t (t + 1)) pa pb
+    let r := runCapaG pick pr PS PP (ca + sumL cb) m M delay n
+    ValidAnoms m M 0 r.2 n ∧ anomVal PSs PPs r.2 = r.1 n ∧
+      ∀ l, ValidAnoms m M 0 l n → anomVal PSs PPs l ≤ r.1 n :=
+  capa_optimal_wrt_specification_on pick pr hpick hpr eps
+    (fun s e => [gcovFixed x μ Sg s e - gcovCost x s e])
+    (fun t => l2Savings X p t (t + 1)) ca pa cb pb 1 p m M delay n hm hmM hd (by omega) hp
+    (fun _ _ _ _ => rfl) (fun t _ => l2Savings_length X p t (t + 1))
+    (fun s e hadm hen w hw => by
+      have hlt : s < e := by obtain ⟨h1, _⟩ := hadm; omega
+      have := gcovCost_le_gcovFixed x μ Sg s e hlt hSg (hpd s e hadm.1 hen)
+      simp only [List.mem_singleton] at hw
+      subst hw; linarith)
+    (fun t _ => l2Savings_nonneg X p t (t + 1))
+    (fun s e0 T h1 h2 _ h4 => by
+      have hsplit := gcovCost_split_le x s e0 T (by omega) (by omega) (hpd s T (by omega) h4)
+        (hpd s e0 h1 (by omega)) (hpd e0 T h2 h4)
+      have hadd := gcovFixed_add x μ Sg s e0 T (by omega) (by omega)
+      simp only [SubAdd, and_true]
+      linarith)
     okc okp PSs PPs hPSs hPPs
 
 /-- the scores and anomalies of CAPA / MVCAPA are functions of the penalised savings of the admissible
